@@ -246,9 +246,20 @@ func c08All(c *Ctx, fw []byte, full bool) {
 		c08Extract(c, fw, false, true, false)
 		c08Extract(c, fw, false, false, false)
 	}
-	c08LD(c, fw, 1+c.Rng.Intn(2), 1+c.Rng.Intn(2))
+	// every product value: Milan / Genoa mostly, one call in six with a value that has no address width
+	// (UNKNOWN 0, Turin 3, 7, 255), which sev.LaunchDigest refuses before it looks at the image
+	prod := 1 + c.Rng.Intn(2)
+	if c.Rng.Intn(6) == 0 {
+		prod = []int{0, 3, 7, 255}[c.Rng.Intn(4)]
+		c.Count("gen:unsupported-product")
+	}
+	c08LD(c, fw, 1+c.Rng.Intn(2), prod)
 	if full {
-		c08SNP(c, fw, 1+uint32(c.Rng.Intn(3)), 1)
+		sp := 1
+		if c.Rng.Intn(4) == 0 {
+			sp = []int{0, 3}[c.Rng.Intn(2)]
+		}
+		c08SNP(c, fw, 1+uint32(c.Rng.Intn(3)), sp)
 	}
 }
 
@@ -399,6 +410,11 @@ func runC08Sev(c *Ctx) {
 		s := c04Standard(0x1000, 0x80b004, secs, 0x40)
 		c08LDClass(c, s.build(), 1, 1, true)
 		c.Count("gen:huge-sections")
+		// the same declarations under Turin, in a one-page and in a two-page ROM: refused for the product before any
+		// page is hashed (before the product-check fix the two-page image hashed the 2^20 declared pages first)
+		c08LDClass(c, s.build(), 1, 3, true)
+		c08LDClass(c, c04Standard(0x2000, 0x80b004, secs, 0x40).build(), 2, 3, true)
+		c.Count("gen:huge-sections-unsupported-product")
 	}
 	for _, v := range []int{-1 << 31, -1, 0, 255, 1000, 5000} {
 		c08LDClass(c, std(0x1000, 0x40).build(), v, 1, true)
